@@ -123,9 +123,9 @@ def _ring_pix(nx: int, ny: int, per_side: int) -> np.ndarray:
     """Closed ring of points along the pixel-space perimeter, corners included, pixel corners when possible."""
 
     def side(n):
-        k = min(max(n, 8), per_side) if n < per_side else per_side
-        if n <= per_side and n >= 8:
-            return np.arange(n, dtype="float64")  # every pixel corner (end point added by next side)
+        if 8 <= n <= per_side:
+            return np.arange(n, dtype="float64")  # every pixel corner (the end point opens the next side)
+        k = per_side if n > per_side else 8  # subsampled / sub-pixel positions for tiny rasters
         return np.linspace(0.0, float(n), k + 1)[:-1]
 
     sx, sy = side(nx), side(ny)
@@ -746,8 +746,6 @@ def o_main(case, T):
             T.cls("res:fit")
     elif mode == "shapeN":
         require(abs(abs(O.a) - abs(O.e)) <= 1e-9 * abs(O.a), "int shape: pixels not square (%r,%r)", O.a, O.e)
-    if mode not in ("fit", "auto") or (mode == "auto" and same_units):
-        require(not rr_calls or mode in ("fit", "auto"), "round_resolution called although resolution was not fitted")
 
     # -- shape clauses
     if mode == "shape2":
@@ -757,6 +755,7 @@ def o_main(case, T):
         longest = max(ony, onx)
         if offs is None:
             require(longest == N, "int shape %d with tight/floating grid: longest side is %d (shape %r)", N, longest, (ony, onx))
+            T.cls("shapeN:N(not snapped)")
         else:
             require(longest in (N, N + 1), "int shape %d: longest side is %d (shape %r)", N, longest, (ony, onx))
             T.cls("shapeN:N" if longest == N else "shapeN:N+1")
@@ -842,10 +841,12 @@ def o_entry(case, T):
 
 
 def build(chk: Check) -> None:
-    chk.sub("general", o_main, strategy=s_case(), n={"quick": 1600, "thorough": 60000}, budget_s={"quick": 60, "thorough": 800})
-    chk.sub("big_curved", o_main, strategy=s_case("big"), n={"quick": 400, "thorough": 20000}, budget_s={"quick": 30, "thorough": 600})
-    chk.sub("shape_request", o_main, strategy=s_case("shape"), n={"quick": 300, "thorough": 12000}, budget_s={"quick": 30, "thorough": 400})
-    chk.sub("same_crs", o_main, strategy=s_case("same_crs"), n={"quick": 300, "thorough": 15000}, budget_s={"quick": 20, "thorough": 300})
-    chk.sub("utm", o_main, strategy=s_case("utm"), n={"quick": 150, "thorough": 5000}, budget_s={"quick": 40, "thorough": 800})
-    chk.sub("tol_band", o_main, strategy=s_band(), n={"quick": 200, "thorough": 5000}, budget_s={"quick": 20, "thorough": 200})
-    chk.sub("entry_points", o_entry, strategy=s_case(), n={"quick": 100, "thorough": 4000}, budget_s={"quick": 30, "thorough": 600})
+    # cost per case is dominated by the code under test (~25 ms: pure-python densify of the buffered footprint;
+    # ~100 ms for utm* because every request queries the CRS database)
+    chk.sub("general", o_main, strategy=s_case(), n={"quick": 1600, "thorough": 60000}, budget_s={"quick": 60, "thorough": 420})
+    chk.sub("big_curved", o_main, strategy=s_case("big"), n={"quick": 400, "thorough": 20000}, budget_s={"quick": 30, "thorough": 150})
+    chk.sub("shape_request", o_main, strategy=s_case("shape"), n={"quick": 300, "thorough": 12000}, budget_s={"quick": 30, "thorough": 100})
+    chk.sub("same_crs", o_main, strategy=s_case("same_crs"), n={"quick": 300, "thorough": 15000}, budget_s={"quick": 20, "thorough": 60})
+    chk.sub("utm", o_main, strategy=s_case("utm"), n={"quick": 150, "thorough": 5000}, budget_s={"quick": 40, "thorough": 100})
+    chk.sub("tol_band", o_main, strategy=s_band(), n={"quick": 200, "thorough": 5000}, budget_s={"quick": 20, "thorough": 30})
+    chk.sub("entry_points", o_entry, strategy=s_case(), n={"quick": 100, "thorough": 4000}, budget_s={"quick": 30, "thorough": 60})
